@@ -168,7 +168,7 @@ def traffic_op(rng: random.Random, o="a", rid=0) -> str:
     if k == 24:
         # the CE pin "for advanced usage": read back, or driven by the application (starts / stops transmitting
         # whatever write(write_only=True) queued; stops / resumes listening)
-        return rng.choice([f"{o} get ce_pin", f"{o} set ce_pin T", f"{o} set ce_pin F"])
+        return rng.choice([f"{o} get ce_pin", f"{o} set ce_pin 1", f"{o} set ce_pin 0"])
     if k == 0:
         return f"{o} available"
     if k == 1:
